@@ -136,6 +136,44 @@ func checkC13(c *Ctx) {
 		r.Unk("C13.nesting", fnName(DO)+":$else.store", p.Pos(DO.Pos()), "no store to the top of conds found under keyword == \"$else\"")
 	}
 
+	// ---- $else / $endif need an open $if (K4)
+	r.Rule("C13.else-needs-if", "K4", "$else and $endif change the condition stack only when a $if is open (len(conds) != 1); at the base level they are errors", 2)
+	for _, kw := range []string{"$else", "$endif"} {
+		n := 0
+		eachInstr(DO, func(in ssa.Instruction) {
+			if !kwIs(in, kw) {
+				return
+			}
+			isMut := false
+			if st, ok := in.(*ssa.Store); ok {
+				if ia, ok := st.Addr.(*ssa.IndexAddr); ok && isFieldLoad(ia.X, parserT, "conds") {
+					isMut = true
+				}
+				if _, ok := isFieldStore(in, parserT, "conds"); ok {
+					isMut = true
+				}
+			}
+			if !isMut {
+				return
+			}
+			n++
+			guard := false
+			for fc := range factsAt(bfDO, in) {
+				rel, ok := relOf(fc.Cond, fc.Val)
+				if !ok || !isLenCall(rel.X) || !isFieldLoad(rel.X.(*ssa.Call).Call.Args[0], parserT, "conds") {
+					continue
+				}
+				if k, ok := constInt(rel.Y); ok && ((rel.Op == token.NEQ && k == 1) || (rel.Op == token.GTR && k == 1) || (rel.Op == token.GEQ && k == 2)) {
+					guard = true
+				}
+			}
+			r.Check(guard, "C13.else-needs-if", fmt.Sprintf("%s:%s#%d", fnName(DO), kw, n-1), p.IPos(in), "under len(conds) != 1", kw+" changes the condition stack without an open $if: at the top level it toggles / pops the base condition and every following directive is ignored (or applied) wrongly")
+		})
+		if n == 0 {
+			r.Unk("C13.else-needs-if", fnName(DO)+":"+kw, p.Pos(DO.Pos()), "no condition-stack update found for "+kw)
+		}
+	}
+
 	// ---- keymap (K2+K3)
 	r.Rule("C13.keymap", "K2", "Handler.Bind's keymap is Parser.keymap; that field is written only by Parse (reset to emacs) and by the guarded `set keymap` case", 3)
 	eachInstr(DB, func(in ssa.Instruction) {
